@@ -5,7 +5,7 @@ lentil/plane.py and lentil/helper.py; Model/Plane.lean + Model/PlaneMeta.lean (P
 boundary_slice, Wavefront.field/intensity/insert, metadata hand-over) are hand-written and compared here with the real
 lentil on two streams: `gi` (small integer amplitudes, OPD = k*lambda/4 so the phasor is a power of i: exact comparison
 after rounding the implementation's 1e-16 dust) and `cf` (generic floats, tolerance 1e-9*(1+|input|))."""
-import itertools, math, numpy as np
+import itertools, json, math, numpy as np
 from harness.common import *
 import vlib
 
@@ -369,6 +369,20 @@ def _full_plane(shape):
     return {'kind': 'image', 'amp': {'scalar': 1.0}, 'opd': {'scalar': 0.0}, 'px': None,
             'mask': {'shape': [int(shape[0]), int(shape[1])], 'ndim': 2, 'layers': [[1] * (shape[0] * shape[1])]}}
 
+def gen_views0(rng):
+    """views on data the array model does not represent (oracle-only): a shape-() wavefront holding 1..4 zero-dimensional fields
+    (the fresh wavefront, optionally through default planes, is the one-field case), or one (1,1) field anywhere in a 2-D shape"""
+    t = int(rng.integers(0, 3))
+    if t == 0:
+        return {'kind': 'views0', 'sub': 'fresh', 'ndefault': int(rng.integers(0, 3)), 'weight': int(rng.integers(-2, 4)), 'out': int(rng.integers(-3, 4))}
+    if t == 1:
+        n = int(rng.integers(1, 5))
+        return {'kind': 'views0', 'sub': '0d', 'vals': [[int(rng.integers(-3, 4)), int(rng.integers(-3, 4))] for _ in range(n)],
+                'weight': int(rng.integers(-2, 4)), 'out': int(rng.integers(-3, 4))}
+    shape = _shape(rng, 5)
+    return {'kind': 'views0', 'sub': '1x1', 'val': [int(rng.integers(-3, 4)), int(rng.integers(-3, 4))], 'shape': list(shape),
+            'off': [int(rng.integers(-3, 4)), int(rng.integers(-3, 4))], 'weight': int(rng.integers(-2, 4))}
+
 def gen_px(rng):
     def one():
         t = int(rng.integers(0, 3))
@@ -384,6 +398,8 @@ def generate(rng, tier):
             out.append(gen_px_extreme(rng) if k % 3 == 0 else gen_chain_extreme(rng)); continue
         if k % 8 == 7:
             out.append(gen_pchain(rng)); continue
+        if k % 25 == 3:
+            out.append(gen_views0(rng)); continue
         t = k % 10
         if t in (0, 1, 2, 3): out.append(gen_chain(rng, 'gi'))
         elif t in (4, 5): out.append(gen_chain(rng, 'cf'))
@@ -398,6 +414,7 @@ def _mkind(m): return 'none' if m is None else 'scalar' if 'scalar' in m else f"
 
 def signature(c):
     k = c['kind']
+    if k == 'views0': return 'views0 ' + json.dumps({x: y for x, y in c.items() if x != 'kind'}, sort_keys=True)
     if k == 'pchain':
         return 'pchain ' + ' | '.join(('prop ' + str(e['shape']) + 'x' + str(e['os']) + ' ' + str(e['prop_shape'])) if e['kind'] == 'propagate' else
                                       f"{e['kind']} amp:{_akind(e['amp'])} opd:{_akind(e['opd'])} mask:{_mkind(e['mask'])} {vlib.jhash(e['mask'])[:6]}" for e in c['elements'])
@@ -409,6 +426,7 @@ def signature(c):
 
 def nontrivial(c):
     k = c['kind']
+    if k == 'views0': return c['sub'] != 'fresh' or c['ndefault'] > 0
     if k == 'pchain': return True
     if k == 'px': return c['a'] is not None or c['b'] is not None
     if k == 'views': return len(c['fields']) > 1
@@ -423,6 +441,7 @@ def _boxes_overlap(pl):
 def tags(c):
     k = c['kind']
     t = [k]
+    if k == 'views0': return t + ['views0:' + c['sub']]
     if k == 'pchain':
         ks = [e['kind'] for e in c['elements']]
         t += [f"pchain:propagations={ks.count('propagate')}", f"pchain:image-planes={ks.count('image')}"]
@@ -522,8 +541,34 @@ def _run_pchain(c):
     o['insert'] = arr_out(out, 'cf'); o['insert_same_object'] = r is out
     return o
 
+def _run_views0(c):
+    lentil = vlib.import_lentil()
+    from lentil.field import Field
+    cx = lambda z: [float(np.real(z)), float(np.imag(z))]
+    if c['sub'] == 'fresh':
+        w = lentil.Wavefront(1e-6)
+        for _ in range(c['ndefault']): w = w * lentil.Plane()
+    elif c['sub'] == '0d':
+        w = lentil.Wavefront.empty(1e-6)
+        w.data = [Field(np.array(complex(a, b))) for a, b in c['vals']]
+    else:
+        w = lentil.Wavefront.empty(1e-6, shape=tuple(c['shape']))
+        w.data = [Field(np.array([[complex(*c['val'])]]), offset=list(c['off']))]
+    if c['sub'] == '1x1':
+        out = np.zeros(tuple(c['shape']))
+        r = w.insert(out, c['weight'])
+        return {'field': arr_out(w.field, 'gi'), 'intensity': arr_out(w.intensity, 'gi'), 'insert': arr_out(out, 'gi'), 'same': r is out}
+    out = np.array(float(c['out']))
+    r = w.insert(out, c['weight'])
+    return {'field': cx(w.field), 'intensity': float(w.intensity), 'insert': float(r), 'fshape': list(np.shape(w.field)), 'ishape': list(np.shape(w.intensity))}
+
 def impl(c):
     lentil = vlib.import_lentil()
+    if c['kind'] == 'views0':
+        try:
+            return _run_views0(c)
+        except (ValueError, IndexError, TypeError) as e:
+            return {'exc': type(e).__name__, 'msg': str(e)[:200]}
     if c['kind'] == 'pchain':
         try:
             return _run_pchain(c)
@@ -572,6 +617,7 @@ def arr_req(a, mode):
 
 def requests(c, io):
     k = c['kind']
+    if k == 'views0': return []          # oracle-only: zero-dimensional data is outside the array model
     if k == 'pchain':
         els = []
         for e in c['elements']:
@@ -662,12 +708,14 @@ def _field_box(fl):
     return (min(e[0] for e in es) - 1, max(e[1] for e in es) + 1, min(e[2] for e in es) - 1, max(e[3] for e in es) + 1)
 
 def compare(c, io, mo):
+    if c['kind'] == 'views0': return None
     m = mo[0]
     k = c['kind']
     if 'exc' in io:
         if m.get('ok'): return f"implementation raised {io['exc']} ({io.get('msg')}), model answered"
         return None if m.get('err') == io['exc'] else f"implementation raised {io['exc']}, model {m.get('err')}"
     if not m.get('ok'): return f"model refused ({m.get('err')}), implementation answered"
+    if k == 'views0': return None
     if k == 'pchain':
         b = _pchain_bounds(c)
         if len(m['steps']) != len(io['steps']): return 'number of steps'
@@ -777,8 +825,28 @@ def _oracle_pchain(c, io):
     if not _close(_np_arr(io['insert']), want, 'cf', bi): return 'insert(out, weight) after the chain did not add weight * |field|^2 and nothing else'
     return None
 
+def _oracle_views0(c, io):
+    if 'exc' in io: return f"views on one-element data raised {io['exc']}: {io.get('msg')}"
+    if c['sub'] == '1x1':
+        S0, S1 = c['shape']
+        want = np.zeros((S0, S1), dtype=complex)
+        i, j = S0 // 2 + c['off'][0], S1 // 2 + c['off'][1]
+        if 0 <= i < S0 and 0 <= j < S1: want[i, j] = complex(*c['val'])
+        if not np.array_equal(_np_arr(io['field']), want): return 'field of a single (1,1) field is not its embedding'
+        if not np.array_equal(_np_arr(io['intensity']), _nsq(want)): return 'intensity != |field|^2 for a single (1,1) field'
+        if not io['same'] or not np.array_equal(_np_arr(io['insert']), c['weight'] * _nsq(want)): return 'insert did not add weight * intensity into the caller\'s array'
+        return None
+    tot = 1 + 0j if c['sub'] == 'fresh' else sum(complex(a, b) for a, b in c['vals'])
+    if io['fshape'] != [] or io['ishape'] != []: return f"views of a shape-() wavefront have shapes {io['fshape']}, {io['ishape']}"
+    if complex(*io['field']) != tot: return f"field {io['field']} of a shape-() wavefront is not the sum {tot} of its fields"
+    n2 = tot.real ** 2 + tot.imag ** 2
+    if abs(io['intensity'] - n2) > 1e-12 * (1 + n2): return f"intensity {io['intensity']} != |field|^2 = {n2} on a shape-() wavefront"
+    if abs(io['insert'] - (c['out'] + c['weight'] * n2)) > 1e-12 * (1 + n2 * abs(c['weight'])): return 'insert on a shape-() wavefront did not add weight * intensity'
+    return None
+
 def oracle(c, io):
     k = c['kind']
+    if k == 'views0': return _oracle_views0(c, io)
     if k == 'pchain': return _oracle_pchain(c, io)
     if k == 'px':
         a, b = c['a'], c['b']
@@ -844,7 +912,7 @@ def oracle(c, io):
     return None
 
 def shrink(c):
-    if c['kind'] == 'pchain': return
+    if c['kind'] in ('pchain', 'views0'): return
     if c['kind'] == 'chain':
         if len(c['planes']) > 1:
             for i in range(len(c['planes'])):
